@@ -2,6 +2,8 @@
    cast by online oracles through their registered bridger; recorded total power >= online power.
    Statements over the executable model M_Attest, for every configuration and operation list. *)
 From Coq Require Import ZArith List Bool.
+From Coq Require Import String.
+From FxV Require gen.Gen_EndBlock.
 From FxV Require Import gen.Gen_Attest model.M_Attest proofs.P_Attest proofs.P_AttestGen.
 Import ListNotations.
 Open Scope Z_scope.
@@ -19,8 +21,9 @@ Theorem C02_quorum : forall c h b n cl park ms,
 Proof. exact quorum_at_flip. Qed.
 Print Assumptions C02_quorum.
 
-(* the same bound for the DISTINCT voters, in every history in which no oracle with a stored vote is unbonded *)
-Theorem C02_quorum_distinct : forall c h b n cl park ms,
+(* PRE-FIX DOCUMENTATION (any variant of the code; needed the guard while UnbondedOracle deleted the cursor):
+   the same bound for the DISTINCT voters, in every history in which no oracle with a stored vote is unbonded *)
+Theorem C02_prefix_quorum_distinct_guarded : forall c h b n cl park ms,
   0 <= c_threshold c ->
   guarded c safe_unbond init (h ++ [Vote b n cl park ms]) ->
   let s := run c init h in
@@ -29,23 +32,25 @@ Theorem C02_quorum_distinct : forall c h b n cl park ms,
   exists a, aget keq (n, cl) (atts s') = Some a /\ a_obs a = true /\ NoDup (a_votes a) /\
             66 * last_total s <= 100 * dpower (oracles s) (a_votes a) + 99.
 Proof. exact quorum_distinct_guarded. Qed.
-Print Assumptions C02_quorum_distinct.
+Print Assumptions C02_prefix_quorum_distinct_guarded.
 
-(* no oracle is counted twice, under the same guard *)
-Theorem C02_no_double_count : forall c h k a,
+(* PRE-FIX DOCUMENTATION: no oracle is counted twice, under the same guard *)
+Theorem C02_prefix_no_double_count_guarded : forall c h k a,
   guarded c safe_unbond init h ->
   aget keq k (atts (run c init h)) = Some a -> NoDup (a_votes a).
 Proof. exact votes_distinct_guarded. Qed.
-Print Assumptions C02_no_double_count.
+Print Assumptions C02_prefix_no_double_count_guarded.
 
-(* the repaired code (UnbondedOracle keeps the cursor): no guard, every history *)
-Theorem C02_no_double_count_fixed : forall c h k a,
+(* PRIMARY (the code as it is since /repo 9161b71, c_unbond_del = false — probed on the real keeper every run):
+   no oracle is counted twice, every history *)
+Theorem C02_no_double_count : forall c h k a,
   c_unbond_del c = false ->
   aget keq k (atts (run c init h)) = Some a -> NoDup (a_votes a).
 Proof. exact votes_distinct_fixed. Qed.
-Print Assumptions C02_no_double_count_fixed.
+Print Assumptions C02_no_double_count.
 
-Theorem C02_quorum_distinct_fixed : forall c h b n cl park ms,
+(* PRIMARY: the quorum bound for the DISTINCT registered voters, every history *)
+Theorem C02_quorum_distinct : forall c h b n cl park ms,
   0 <= c_threshold c -> c_unbond_del c = false ->
   let s := run c init h in
   let s' := fst (vote c s b n cl park ms) in
@@ -53,11 +58,11 @@ Theorem C02_quorum_distinct_fixed : forall c h b n cl park ms,
   exists a, aget keq (n, cl) (atts s') = Some a /\ a_obs a = true /\ NoDup (a_votes a) /\
             66 * last_total s <= 100 * dpower (oracles s) (a_votes a) + 99.
 Proof. exact quorum_distinct_fixed. Qed.
-Print Assumptions C02_quorum_distinct_fixed.
+Print Assumptions C02_quorum_distinct.
 
-(* while UnbondedOracle deletes the cursor, the unguarded statement is false (finding C02-2 = C01-1):
-   votes [0;1;0], 50 % of the power suffices *)
-Theorem C02_double_count_refuted :
+(* PRE-FIX DOCUMENTATION: while UnbondedOracle deleted the cursor, the unguarded statement was false
+   (finding C02-2 = C01-1, fixed): votes [0;1;0], 50 % of the power sufficed *)
+Theorem C02_prefix_double_count_refuted :
   exists c h, 0 <= c_threshold c /\ c_unbond_del c = true /\
     let s := run c init h in
     exists a, aget keq (1, 1) (atts s) = Some a /\ a_obs a = true /\ last_obs s = 1 /\
@@ -65,7 +70,7 @@ Theorem C02_double_count_refuted :
               last_total s = 1000 /\ dpower (oracles s) (a_votes a) = 500 /\
               100 * dpower (oracles s) (a_votes a) + 99 < 66 * last_total s.
 Proof. exact revote_refuted. Qed.
-Print Assumptions C02_double_count_refuted.
+Print Assumptions C02_prefix_double_count_refuted.
 
 (* the literal reading "P >= 66 % of total" is false by less than one power unit: 331 of 503 *)
 Theorem C02_truncation_refuted :
@@ -76,6 +81,23 @@ Theorem C02_truncation_refuted :
               100 * dpower (oracles s) (a_votes a) < 66 * last_total s.
 Proof. exact truncation_refuted. Qed.
 Print Assumptions C02_truncation_refuted.
+
+(* the bar in terms of STAKE: power is stake/10^20 truncated per oracle, so with n online oracles the counted voters'
+   stake covers 66 % of the online stake up to (99 + 66 n) power units *)
+Theorem C02_quorum_in_stake : forall c h b n cl park ms,
+  0 <= c_threshold c ->
+  let s := run c init h in
+  let s' := fst (vote c s b n cl park ms) in
+  last_obs s' <> last_obs s ->
+  exists a, aget keq (n, cl) (atts s') = Some a /\ a_obs a = true /\
+            66 * online_stake (oracles s) <=
+            100 * vote_stake (oracles s) (a_votes a) + (99 + 66 * online_count (oracles s)) * U.
+Proof. exact quorum_in_stake. Qed.
+Print Assumptions C02_quorum_in_stake.
+
+Theorem C02_power_rounding : forall o, 0 <= o_stake o -> power o * U <= o_stake o < (power o + 1) * U.
+Proof. exact power_stake_bounds. Qed.
+Print Assumptions C02_power_rounding.
 
 (* votes of addresses that are not registered oracles add nothing *)
 Theorem C02_nonmember_ignored : forall os req votes acc,
@@ -102,6 +124,56 @@ Theorem C02_admission : forall c h b n cl park ms,
                 o_online rec = true /\ o_bridger rec = b.
 Proof. exact vote_admission. Qed.
 Print Assumptions C02_admission.
+
+(* ---- real end-block steps: M_EndBlock.slashing (three loops, signed window, unslashed-object selection) decides
+        who is slashed; C02_total_ge_online and C02_admission above quantify over these steps too ---- *)
+
+(* an online oracle that had to confirm a due oracle set / batch / bridge call and did not is offline after the
+   end blocker, and the recorded total is recomputed in the same step *)
+Theorem C02_end_block_slashes_nonconfirmers : forall s newset s' x o rec,
+  end_block s newset = (s', Ok) ->
+  e_window (eb s) < e_height (eb s) ->
+  due_objects s x ->
+  aget Z.eqb o (oracles s) = Some rec -> o_online rec = true ->
+  o_start rec <= EB.ob_height x -> ~ In o (EB.ob_confirms x) ->
+  (exists rec', aget Z.eqb o (oracles s') = Some rec' /\ o_online rec' = false /\ o_stake rec' = o_stake rec) /\
+  last_total s' = online_power (oracles s').
+Proof. exact end_block_slashes_nonconfirmers. Qed.
+Print Assumptions C02_end_block_slashes_nonconfirmers.
+
+(* ... and its claims are refused from then on *)
+Theorem C02_slashed_oracle_cannot_vote : forall c s newset s' x o rec b n cl park ms,
+  end_block s newset = (s', Ok) ->
+  e_window (eb s) < e_height (eb s) -> due_objects s x ->
+  aget Z.eqb o (oracles s) = Some rec -> o_online rec = true ->
+  o_start rec <= EB.ob_height x -> ~ In o (EB.ob_confirms x) ->
+  aget Z.eqb b (by_bridger s') = Some o ->
+  snd (vote c s' b n cl park ms) <> Ok.
+Proof. exact slashed_oracle_cannot_vote. Qed.
+Print Assumptions C02_slashed_oracle_cannot_vote.
+
+(* the end blocker never brings an oracle online, never changes a stake, and leaves the total untouched or fresh *)
+Theorem C02_end_block_effect : forall s newset s',
+  end_block s newset = (s', Ok) ->
+  frame_all s s' /\ e_height (eb s') = e_height (eb s) + 1 /\
+  (forall o, match aget Z.eqb o (oracles s), aget Z.eqb o (oracles s') with
+             | Some r, Some r' => o_stake r' = o_stake r /\ o_bridger r' = o_bridger r /\ o_ext r' = o_ext r /\
+                                  (o_online r' = true -> o_online r = true /\ o_slash r' = o_slash r)
+             | None, None => True
+             | _, _ => False
+             end) /\
+  ((oracles s' = oracles s /\ last_total s' = last_total s) \/ last_total s' = online_power (oracles s')).
+Proof. exact end_block_effect. Qed.
+Print Assumptions C02_end_block_effect.
+
+Theorem C02_end_block_nonvacuous :
+  let s := run cfg0 init h_endblock in
+  map (fun p => (fst p, o_online (snd p), o_slash (snd p))) (oracles s) = [(2, false, 1); (1, true, 0); (0, true, 0)] /\
+  last_total s = 400 /\ online_power (oracles s) = 400 /\ e_last_oset (eb s) = 1 /\ e_height (eb s) = 5 /\
+  map EB.ob_key (e_osets (eb s)) = [1; 2] /\
+  snd (step cfg0 s (Vote 2 1 1 true [])) = Err E_Offline /\ snd (step cfg0 s (Vote 1 1 1 true [])) = Ok.
+Proof. exact example_endblock. Qed.
+Print Assumptions C02_end_block_nonvacuous.
 
 (* transaction layer: an accepted MsgClaim was signed by the wrapper's bridger and is counted for the
    wrapped claim's bridger *)
@@ -165,3 +237,10 @@ Theorem C02_source_shape :
   gen_raw_key_users = expected_raw_key_users.
 Proof. exact gen_matches_model. Qed.
 Print Assumptions C02_source_shape.
+
+Theorem C02_end_block_source_shape :
+  Gen_EndBlock.gen_slash_args = slash_args0 /\
+  Gen_EndBlock.gen_slashing_calls = ["GetAllOracles"; "oracleSetSlashing"; "batchSlashing"; "bridgeCallSlashing"; "SetLastTotalPower"]%string /\
+  Gen_EndBlock.gen_endblock_phases = ["GetSignedWindow"; "slashing"; "createOracleSetRequest"; "pruneOracleSet"]%string.
+Proof. exact gen_endblock_matches_model. Qed.
+Print Assumptions C02_end_block_source_shape.
